@@ -13,7 +13,7 @@ import ast
 from sa import AnalysisError
 from sa.astutil import dotted, src, stmt_text, params, find_stmts, calls_in, method_name, walk_no_nested, const, strip_docstring
 from sa.facts import Order
-from sa.guards import paths_to, decompose, as_compare, path_returns
+from sa.guards import paths_to, decompose, as_compare, path_returns, enclosing_conditions
 
 
 def range_aliases(fn):
@@ -196,7 +196,6 @@ ELEMENTARY = {
     'Add': ['(builtins.sum(lowers), builtins.sum(uppers))', '(sum(lowers), sum(uppers))'],
     'Minimum': ['(min(x.lo, y.lo), min(x.hi, y.hi))', '(min(y.lo, x.lo), min(y.hi, x.hi))'],
     'Maximum': ['(max(x.lo, y.lo), max(x.hi, y.hi))', '(max(y.lo, x.lo), max(y.hi, x.hi))'],
-    'Inflate': ['(min(func.lo, 0), max(func.hi, 0))', '(min(0, func.lo), max(0, func.hi))'],
     '_LoopIndex': ['(0, max(0, length.hi - 1))'],
     'Sign': ['(int(numpy.sign(func.lo)), int(numpy.sign(func.hi)))'],
     # index-producing nodes (NumPy semantics): insertion points of searchsorted lie in [0, n]; positions of argsort/nonzero/arange in [0, n-1]
@@ -323,6 +322,41 @@ def check_transfer(model, rep):
     rets = sorted(got)
     ok = set(got) == set(want) and all(all(nf.get(k) == v for k, v in want[r].items()) for r in got for nf in got[r])
     rep.ob('R06.4', f.key, f.where(), ok, 'Sum range = value range times length range (all sign cases, empty axis -> 0)' if ok else f'Sum._intbounds_impl returns {rets}', statement='sum-transfer')
+
+
+def check_inflate_transfer(model, rep):
+    """R06.4 (Inflate): entries of the operand that are mapped to the same dof are SUMMED, so the announced range of an integer Inflate is the
+    range of the operand (and 0) only for a dof map known to be free of repetitions (a Range, or a constant with unique entries); otherwise it is scaled by the
+    number of entries of the dof map.  Decided on the structure of _intbounds_impl: a count that is the product of the upper bounds of self.dofmap.shape,
+    returns that scale both bounds with it, and the unscaled count 1 only under a repetition-freeness test."""
+    f = model.func('evaluable:Inflate._intbounds_impl')
+    al = range_aliases(f.node)
+    loops = [l for l in ast.walk(f.node) if isinstance(l, ast.For) and src(l.iter) in ('self.dofmap.shape', 'dofmap.shape')]
+    cname = None
+    for l in loops:
+        for b in l.body:
+            if isinstance(b, ast.AugAssign) and isinstance(b.op, ast.Mult) and isinstance(b.target, ast.Name) and '_intbounds[1]' in src(b.value) and src(l.target) in src(b.value):
+                cname = b.target.id
+    rets = [r for r in find_stmts(f.body, lambda s_: isinstance(s_, ast.Return) and s_.value is not None)]
+    scaled = cname is not None and all(src(r.value).replace(' ', '') == '(0,0)' or (isinstance(r.value, ast.Tuple) and len(r.value.elts) == 2 and all(
+        any(isinstance(x, ast.BinOp) and isinstance(x.op, ast.Mult) and cname in {n_.id for n_ in ast.walk(x) if isinstance(n_, ast.Name)} for x in ast.walk(e)) for e in r.value.elts)) for r in rets)
+    ones = [s_ for s_ in ast.walk(f.node) if isinstance(s_, ast.Assign) and cname is not None and src(s_.targets[0]) == cname and const(s_.value) == 1]
+    # the unscaled count is licensed by a test that establishes repetition-freeness: a Range, or a constant whose unique entries are as many as its entries
+    from sa.boolnf import equivalent
+    free = True
+    for s_ in ones:
+        guards = [i_ for i_ in ast.walk(f.node) if isinstance(i_, ast.If) and any(x is s_ for b in i_.body for x in ast.walk(b))]
+        lic = False
+        for g in guards:
+            for D in ('dofmap', 'self.dofmap'):
+                if equivalent(g.test, f'isinstance({D}, Range) or isinstance({D}, Constant) and len(numpy.unique({D}.value)) == {D}.value.size') or equivalent(g.test, f'isinstance({D}, Range)'):
+                    lic = True
+        in_else_with_loop = any(isinstance(p_, ast.If) and any(x is s_ for b in p_.orelse for x in ast.walk(b)) and any(y is l for l in loops for b in p_.orelse for y in ast.walk(b)) for p_ in ast.walk(f.node))
+        free = free and (lic or in_else_with_loop)
+    ok = bool(rets) and scaled and free
+    rep.ob('R06.4', f.key, f.where(), ok, 'Inflate scales the range of its operand by the number of dof map entries unless the dof map is known to be free of repetitions' if ok else
+           f'Inflate._intbounds_impl returns {[norm_term(r.value, al) for r in rets]}: entries that share a dof are summed, so the announced range must be scaled by the number of entries of the dof map '
+           'unless it is known to be free of repetitions - otherwise Mod/InRange/NormDim shortcuts drop operations for values outside the announced range', statement='inflate-transfer')
 
 
 def check_constancy(model, rep):
@@ -570,6 +604,7 @@ def run(model, rep, tier):
     rep.rule('R06.5', 'function.Array wrappers announce exactly the arguments their lowering depends on (= R13.5)')
     check_consumers(model, rep)
     check_transfer(model, rep)
+    check_inflate_transfer(model, rep)
     check_constancy(model, rep)
     from rules.c13 import check_announced
     from rules.c03 import _Rename
